@@ -225,6 +225,7 @@ func (r *runner) execute() string {
 func (r *runner) opDerive(step int, last bool, i uint32) bool {
 	sc := r.k.Scenario
 	vb := len(r.vios)
+	parentBefore, _ := r.cur.Facts()
 	d := r.cur.Derive(i)
 	wantPub, wantChain, refErr := ref.CKDpub(r.refPub, r.refChain, i)
 	r.stats["derivations"]++
@@ -285,6 +286,36 @@ func (r *runner) opDerive(step int, last bool, i uint32) bool {
 			// implied by (consistent and child key == reference); reported when those two did not already fire
 			if !ref.MulG(hist.Combine(sc.Proto, sids, shares)).Equal(want) && len(r.vios) == before && keyOK {
 				r.violate("derived-shares-wrong-key|"+sc.Proto, fmt.Sprintf("index %d: derived secret shares of %v do not reconstruct the secret key of the reference child %s", i, sids, hist.Hex(want)))
+			}
+		}
+	}
+	if last {
+		// derivation must leave the parent material untouched, and a SECOND child derived from the same
+		// parent objects must be as good as the first (an application derives many children from one key)
+		if parentAfter, err := r.cur.Facts(); err == nil && parentBefore != nil {
+			if df := hist.Diff(parentBefore, parentAfter); len(df) > 0 {
+				r.violate("derive-modifies-parent|"+sc.Proto, fmt.Sprintf("deriving child %d changed the parent material: %v", i, df))
+			}
+		}
+		j := (i + 1) & 0x7fffffff
+		if wp2, wc2, e2 := ref.CKDpub(r.refPub, r.refChain, j); e2 == nil {
+			d2 := r.cur.Derive(j)
+			r.stats["derivations"]++
+			if len(d2.Panics) > 0 || d2.Refused() {
+				r.violate("sibling-derivation|"+sc.Proto+"|fails", fmt.Sprintf("after deriving child %d, deriving child %d from the same parent: %s", i, j, d2.Describe()))
+			} else if f2, err := d2.Mat.Facts(); err == nil {
+				w2 := wp2
+				if sc.Proto == hist.Taproot {
+					w2 = evenY(wp2)
+				}
+				for _, id := range f2.IDs {
+					if !f2.Pub[id].Equal(w2) || !bytes.Equal(f2.Chain[id], wc2) {
+						r.violate("sibling-derivation|"+sc.Proto+"|bip32-mismatch", fmt.Sprintf("after deriving child %d, child %d derived from the same parent objects does not match the reference at %s", i, j, id))
+					}
+				}
+				for _, e := range d2.Mat.Consistency() {
+					r.violate("sibling-derivation|"+sc.Proto+"|"+hist.Clause(e), fmt.Sprintf("after deriving child %d, child %d derived from the same parent objects: %v", i, j, e))
+				}
 			}
 		}
 	}
